@@ -116,8 +116,87 @@ Section Surrogate.
     | r :: rs => let '(s1, o) := step s r in
                  let '(s2, os) := run step s1 rs in (s2, o :: os)
     end.
+
+  (* SurrogateModel.read_from_data_store:
+       for individual in self.problem.individuals: self.add_data(individual.vector, individual.costs)
+     EVERY individual stored with the problem is copied, whatever its state: an individual that
+     was never evaluated (EMPTY / IN_PROGRESS / FAILED) contributes its vector with whatever its
+     `costs` attribute holds (the empty list for a fresh Individual).  `inds` is the list of
+     (vector, costs) of problem.individuals at the moment of the call.  No counter is touched,
+     nothing is trained, and calling it twice copies the same individuals twice. *)
+  Definition read_from_data_store (s : state) (inds : list (V * C)) : state :=
+    fold_left (fun s p => add_data s (fst p) (snd p)) inds s.
+
+  (* the user assigns `surrogate.trained = b` *)
+  Definition set_trained (s : state) (b : bool) : state :=
+    {| trained := b; eval_counter := eval_counter s; predict_counter := predict_counter s;
+       x_data := x_data s; y_data := y_data s; train_log := train_log s; obj_log := obj_log s;
+       hook_log := hook_log s |}.
+
+  (* ------------------------------------------------------------------------------------------
+     Sessions: what a user can do with the surrogate wrappers of one problem between requests.
+     A wrapper object = its class (pass-through or predicting), its current train_step, its
+     train() oracle and its bookkeeping state; several wrapper objects may exist and
+     `problem.surrogate` designates the one that answers requests (Job.evaluate always goes
+     through problem.surrogate).  The ghost logs are kept per wrapper object. *)
+  Record wrapper := { w_pass : bool; w_ts : Z; w_tape : nat -> bool; w_st : state }.
+
+  Inductive event :=
+  | EReq (r : req)                    (* problem.surrogate.evaluate(individual) *)
+  | ESeed (inds : list (V * C))       (* problem.individuals = inds; problem.surrogate.read_from_data_store() *)
+  | ETrain                            (* the user calls problem.surrogate.train() *)
+  | ESetStep (ts : Z)                 (* problem.surrogate.train_step = ts *)
+  | ESetTrained (b : bool)            (* problem.surrogate.trained = b *)
+  | EUse (k : nat).                   (* problem.surrogate = wrappers[k] *)
+
+  Definition with_st (w : wrapper) (s : state) : wrapper :=
+    {| w_pass := w_pass w; w_ts := w_ts w; w_tape := w_tape w; w_st := s |}.
+
+  Definition wrapper_step (has_hook : bool) (w : wrapper) : state -> req -> state * (kind * outcome) :=
+    if w_pass w then passthrough_evaluate else predict_evaluate (w_ts w) has_hook (w_tape w).
+
+  (* one event on the wrapper that is problem.surrogate; SurrogateModelEval.train is `pass` *)
+  Definition wrapper_event (has_hook : bool) (w : wrapper) (e : event) : wrapper * option (kind * outcome) :=
+    match e with
+    | EReq r => let '(s, o) := wrapper_step has_hook w (w_st w) r in (with_st w s, Some o)
+    | ESeed inds => (with_st w (read_from_data_store (w_st w) inds), None)
+    | ETrain => (if w_pass w then w else with_st w (do_train (w_tape w) (w_st w)), None)
+    | ESetStep ts => ({| w_pass := w_pass w; w_ts := ts; w_tape := w_tape w; w_st := w_st w |}, None)
+    | ESetTrained b => (with_st w (set_trained (w_st w) b), None)
+    | EUse _ => (w, None)
+    end.
+
+  Record session := { cur : nat; slots : list wrapper }.
+
+  Fixpoint set_nth {A : Type} (l : list A) (k : nat) (a : A) : list A :=
+    match l, k with
+    | [], _ => []
+    | _ :: t, 0 => a :: t
+    | h :: t, S k' => h :: set_nth t k' a
+    end.
+
+  Definition session_event (has_hook : bool) (ss : session) (e : event) : session * option (kind * outcome) :=
+    match e with
+    | EUse k => ((if k <? length (slots ss) then {| cur := k; slots := slots ss |} else ss), None)
+    | _ => match nth_error (slots ss) (cur ss) with
+           | Some w => let '(w', o) := wrapper_event has_hook w e in
+                       ({| cur := cur ss; slots := set_nth (slots ss) (cur ss) w' |}, o)
+           | None => (ss, None)
+           end
+    end.
+
+  Fixpoint session_run (has_hook : bool) (ss : session) (es : list event)
+    : session * list (option (kind * outcome)) :=
+    match es with
+    | [] => (ss, [])
+    | e :: es' => let '(s1, o) := session_event has_hook ss e in
+                  let '(s2, os) := session_run has_hook s1 es' in (s2, o :: os)
+    end.
 End Surrogate.
 
 Arguments req : clear implicits.
 Arguments state : clear implicits.
 Arguments outcome : clear implicits.
+Arguments wrapper : clear implicits.
+Arguments event : clear implicits.
+Arguments session : clear implicits.
